@@ -548,3 +548,42 @@ def corpus5(per_family=30):
         for _ in range(per_family):
             out.append((fam(r) + HARNESS, fam.__name__))
     return out
+
+
+# ------------------------------------------------------------------------------------------- sixth wave: naming
+
+def fam_static_self_ref(r):
+    """static methods that call each other (or themselves) through the class"""
+    c = r.choice(["MathBox", "util", "Helper_cls"])
+    m1, m2 = r.choice([("fact", "twice"), ("Fact", "twiceOf"), ("_fact", "__twice")])
+    return (f"class {c}:\n    @staticmethod\n    def {m1}(n):\n        return 1 if n < 2 else n * {c}.{m1}(n - 1)\n\n    @staticmethod\n    def {m2}(n):\n        return {c}.{m1}(n) * 2\n\n\n"
+            f"def f(x, y):\n    return {c}.{m1}(abs(x) + 1), {c}.{m2}(abs(y) % 4)\n")
+
+
+def fam_local_global_clash(r):
+    """a local whose conventional name is the current name of a module-level variable that is itself due for renaming"""
+    g = r.choice(["ax", "maxVal", "cfg"])
+    loc = r.choice(["_" + g, g.upper() + "_", "__" + g])
+    ign = r.choice(["", "", "  # pyrefact: ignore"])
+    return (f"{g} = 10\n\n\ndef helperFn(v):\n    return {g} + v{ign}\n\n\ndef bar(v):\n    {loc} = v * 2\n    return {loc} + {g}\n\n\ndef f(x, y):\n    return bar(x), helperFn(y), {g}\n")
+
+
+def fam_shadowed_def(r):
+    """a function whose name is also bound locally (loop / with / walrus target, parameter) to something else"""
+    how = r.choice(["for emit in (str,):\n        out = emit(x)", "with contextlib.nullcontext(str) as emit:\n        out = emit(x)", "if (emit := str):\n        out = emit(x)",
+                    "emit = str\n    out = emit(x)", "out = [emit(x) for emit in (str,)][0]", "out = (lambda emit: emit(x))(str)"])
+    return (f"import contextlib\n\n\ndef emit(v):\n    return ('module-level', v)\n\n\ndef f(x, y):\n    {how}\n    return out, emit(y)\n")
+
+
+FAMILIES6 = [fam_static_self_ref, fam_local_global_clash, fam_shadowed_def]
+
+
+def corpus6(per_family=24):
+    import random
+
+    out = []
+    for fam in FAMILIES6:
+        r = random.Random("6:" + fam.__name__)
+        for _ in range(per_family):
+            out.append((fam(r) + HARNESS, fam.__name__))
+    return out
